@@ -28,16 +28,22 @@ fn disjoint(p: NonNull<u8>, ps: usize, q: NonNull<u8>, qs: usize) -> bool {
 /// Touch the first and last byte of a block: CBMC's pointer checks fail if either lies outside
 /// the object (arena) the pool carved it from.
 unsafe fn stamp(p: NonNull<u8>, size: usize, v: u8) {
-    *p.as_ptr() = v;
     *p.as_ptr().add(size - 1) = v ^ 0xFF;
+    *p.as_ptr() = v;
 }
 unsafe fn stamped(p: NonNull<u8>, size: usize, v: u8) -> bool {
-    *p.as_ptr() == v && *p.as_ptr().add(size - 1) == v ^ 0xFF
+    *p.as_ptr() == v && (size == 1 || *p.as_ptr().add(size - 1) == v ^ 0xFF)
 }
 
 /// alloc(s1); free; alloc(s2); alloc(s3): the two live blocks are disjoint, in bounds, 8-aligned
 /// and keep their bytes. Sizes symbolic in 1..=MAXS.
 fn lockfree_recycle<const MAXS: usize>() {
+    lockfree_recycle_in(1, MAXS, 1, MAXS, 1, MAXS)
+}
+
+/// Same history with each size confined to its own concrete interval (cheaper: the size-class
+/// scan of each call stays inside one or two classes).
+fn lockfree_recycle_in(l1: usize, h1: usize, l2: usize, h2: usize, l3: usize, h3: usize) {
     let pool = match LockFreeMemoryPool::new(lf_config(4096)) {
         Ok(p) => p,
         Err(e) => { forget(e); return; }
@@ -45,9 +51,7 @@ fn lockfree_recycle<const MAXS: usize>() {
     let s1: usize = vany();
     let s2: usize = vany();
     let s3: usize = vany();
-    assume(s1 >= 1 && s1 <= MAXS && s2 >= 1 && s2 <= MAXS && s3 >= 1 && s3 <= MAXS);
-    #[cfg(feature = "kf_c07_lockfree_sizeclass")]
-    assume(!crate::kf::c07_lockfree_sizeclass(s1, s2));
+    assume(s1 >= l1 && s1 <= h1 && s2 >= l2 && s2 <= h2 && s3 >= l3 && s3 <= h3);
     let p1 = match pool.allocate(s1) { Ok(p) => p, Err(e) => { forget(e); panic!("4 KiB arena refused a small request") } };
     unsafe { stamp(p1, s1, 0x11) };
     let r = pool.deallocate(p1, s1);
@@ -80,8 +84,28 @@ macro_rules! c07_lockfree_recycle {
         }
     };
 }
-c07_lockfree_recycle!(c07_lockfree_recycle_s64, quick, 66, 64);
-c07_lockfree_recycle!(c07_lockfree_recycle_s256, quick, 66, 256);
+c07_lockfree_recycle!(c07_lockfree_recycle_s64, thorough, 66, 64);
+c07_lockfree_recycle!(c07_lockfree_recycle_s256, thorough, 66, 256);
+
+macro_rules! c07_lockfree_class {
+    ($name:ident, $tier:ident, $unwind:literal, $l1:literal, $h1:literal, $l2:literal, $h2:literal, $l3:literal, $h3:literal) => {
+        zv_harness! {
+            name: $name,
+            prop: "C07",
+            tier: $tier,
+            unwind: $unwind,
+            stubs: [alloc::fmt::format => crate::common::stubs::fmt_format],
+            targets: "memory::lockfree_pool::LockFreeMemoryPool::{new, allocate, deallocate, allocate_from_fast_bin, deallocate_to_fast_bin, allocate_new_block, size_to_bin_index, align_size, offset_to_ptr, ptr_to_offset}",
+            bounds: "4 KiB arena, cache alignment/NUMA/stats off; history alloc(s1) free alloc(s2) alloc(s3) with symbolic sizes s1 in [l1,h1], s2 in [l2,h2], s3 in [l3,h3] (instance args: the six bounds); unwind 66 covers the 64 fast bins built by new() and the 64-entry size-class scan",
+            oracle: "live blocks pairwise disjoint, first and last byte of each inside the arena (CBMC pointer checks), contents of a live block unchanged by a later allocation, 8-byte alignment, free of an issued block succeeds",
+            body: { lockfree_recycle_in($l1, $h1, $l2, $h2, $l3, $h3) }
+        }
+    };
+}
+// a freed block of one request size re-issued for another size of the same size class
+c07_lockfree_class!(c07_lockfree_class144, quick, 66, 129, 144, 129, 144, 1, 16);
+c07_lockfree_class!(c07_lockfree_class32, quick, 66, 25, 32, 25, 32, 1, 8);
+c07_lockfree_class!(c07_lockfree_class_cross, quick, 66, 1, 24, 9, 40, 1, 24);
 c07_lockfree_recycle!(c07_lockfree_recycle_s8192, thorough, 66, 8192);
 
 zv_harness! {
